@@ -133,16 +133,12 @@ class GeometricMTF(SpotDiagram):
         Returns:
             ndarray: The MTF data for the field point.
         """
-        A, edges = np.histogram(xi, bins=self.num_points+1)
-        x = (edges[1:] + edges[:-1]) / 2
-        dx = x[1] - x[0]
-
-        mtf = np.zeros_like(v)
-        for k in range(len(v)):
-            Ac = np.sum(A * np.cos(2 * np.pi * v[k] * x) * dx) / np.sum(A * dx)
-            As = np.sum(A * np.sin(2 * np.pi * v[k] * x) * dx) / np.sum(A * dx)
-
-            mtf[k] = np.sqrt(Ac**2 + As**2)
+        # exact transform of the line spread of the ray spot (binning the
+        # spot into a fixed number of bins aliases the curve at
+        # f = number of bins / spot width)
+        xi = np.asarray(xi, dtype=float)
+        phase = 2 * np.pi * np.outer(v, xi - np.mean(xi))
+        mtf = np.abs(np.mean(np.exp(1j * phase), axis=1))
 
         return mtf * scale_factor
 
